@@ -944,11 +944,32 @@ func (o c08Op) sx() string {
 }
 
 // c08Exec runs the ops on a proto.Reader over the scripted connection and prints what every call returned.
+// the kind of every error of the last c08Exec, in order (oracle only: the model knows error classes, not Go's sentinel values)
+var c08Kinds []string
+var c08LastKinds string
+
+func c08E(err error) string {
+	k := "other"
+	var to interface{ Timeout() bool }
+	switch {
+	case errors.Is(err, io.ErrUnexpectedEOF):
+		k = "unexpected-EOF"
+	case errors.Is(err, io.EOF):
+		k = "EOF"
+	case errors.As(err, &to) && to.Timeout():
+		k = "timeout"
+	}
+	c08Kinds = append(c08Kinds, k)
+	return "(e)"
+}
+
 func c08Exec(evs []c08Ev, pattern []int, tail error, ops []c08Op) (obs string) {
 	conn := c08NewConn(evs, pattern, tail, false)
 	r := proto.NewReader(conn)
 	var out []string
 	stopped := false
+	c08Kinds = c08Kinds[:0]
+	defer func() { c08LastKinds = strings.Join(c08Kinds, ",") }()
 	func() {
 		defer func() {
 			if p := recover(); p != nil {
@@ -968,35 +989,35 @@ func c08Exec(evs []c08Ev, pattern []int, tail error, ops []c08Op) (obs string) {
 			case "w":
 				b, err := r.ReadRaw(o.n)
 				if err != nil {
-					out = append(out, "(e)")
+					out = append(out, c08E(err))
 				} else {
 					out = append(out, sx("d", hx(b)))
 				}
 			case "u":
 				v, err := r.UVarInt()
 				if err != nil {
-					out = append(out, "(e)")
+					out = append(out, c08E(err))
 				} else {
 					out = append(out, sx("n", strconv.FormatUint(v, 10)))
 				}
 			case "s":
 				b, err := r.StrRaw()
 				if err != nil {
-					out = append(out, "(e)")
+					out = append(out, c08E(err))
 				} else {
 					out = append(out, sx("d", hx(b)))
 				}
 			case "b":
 				v, err := r.UInt8()
 				if err != nil {
-					out = append(out, "(e)")
+					out = append(out, c08E(err))
 				} else {
 					out = append(out, sx("n", strconv.Itoa(int(v))))
 				}
 			case "k":
 				v, err := r.Bool()
 				if err != nil {
-					out = append(out, "(e)")
+					out = append(out, c08E(err))
 				} else if v {
 					out = append(out, "(n 1)")
 				} else {
@@ -1005,14 +1026,14 @@ func c08Exec(evs []c08Ev, pattern []int, tail error, ops []c08Op) (obs string) {
 			case "i":
 				v, err := r.Int32()
 				if err != nil {
-					out = append(out, "(e)")
+					out = append(out, c08E(err))
 				} else {
 					out = append(out, sx("n", strconv.FormatInt(int64(v), 10)))
 				}
 			case "q":
 				v, err := r.UInt64()
 				if err != nil {
-					out = append(out, "(e)")
+					out = append(out, c08E(err))
 				} else {
 					out = append(out, sx("n", strconv.FormatUint(v, 10)))
 				}
@@ -1036,7 +1057,7 @@ func c08Exec(evs []c08Ev, pattern []int, tail error, ops []c08Op) (obs string) {
 						if errors.As(err, &op) && op.Timeout() {
 							continue
 						}
-						res = "(e)"
+						res = c08E(err)
 						break
 					}
 					if code := proto.ServerCode(v); !code.IsAServerCode() {
@@ -1402,6 +1423,7 @@ func c08RdCase(h *H, i int) {
 	hs, zs := c08Tables(c08Flat(evs), starts)
 	cs := fmt.Sprintf("rd %s %s %s %s %s %s", c08EvsSx(evs), tl, c08PatSx(pattern), c08OpsSx(ops), hs, zs)
 	obs := c08Exec(evs, pattern, tail, ops)
+	obsKinds := c08LastKinds
 	// direct oracle: the same calls over the same bytes and silences delivered in the coarsest possible way
 	var coarse []c08Ev
 	for _, e := range evs {
@@ -1419,6 +1441,8 @@ func c08RdCase(h *H, i int) {
 	oracle := "ok"
 	if ref != obs {
 		oracle = sanitize("FAIL:the calls returned something else when the same stream came in other pieces: at once " + c08Short(ref) + " / segmented " + c08Short(obs))
+	} else if c08LastKinds != obsKinds {
+		oracle = sanitize("FAIL:the calls failed with another error when the same stream came in other pieces: at once [" + c08LastKinds + "] / segmented [" + obsKinds + "]")
 	}
 	if len(cs) > 700000 {
 		h.Emit(fmt.Sprintf("rd-big len=%d ops=%s", len(flat), c08OpsSx(ops)), "-", oracle)
